@@ -105,6 +105,19 @@ end
 /-- `apply_func(a)`: every terminal `t` becomes `a ∘ t` -/
 def PT.applyFunc (t : PT α) (a : Aff α) : PT α := PT.mapTerminals (fun f => a.compose f) t
 
+/-! ### the public witness cache: a user appends points to `tree.node_value(idx).state` -/
+
+/-- `Witness(ws)` becomes `Witness(ws ++ pts)`; other states have no point list -/
+def NState.plant (pts : List (List α)) : NState α → NState α
+  | .witness ws => .witness (ws ++ pts)
+  | s => s
+
+def PT.plantFn (pts : List (List α)) : PT α → PT α
+  | .node i c ks => .node i ⟨c.aff, c.state.plant pts⟩ ks
+
+/-- appending points to the witness list of node `idx` -/
+def PT.plant (t : PT α) (idx : Nat) (pts : List (List α)) : PT α := ITree.modifyAt (PT.plantFn pts) t idx
+
 /-- `AffTree::new(dim)` / `from_aff(f)`: a single terminal with index 0 and `K` empty slots -/
 def PT.fromAff (K : Nat) (f : Aff α) : PT α := .node 0 (Content.new f) (IKids.empty K)
 
